@@ -69,3 +69,41 @@ Definition csessions_case (nw : nat) (rs : list nat) (canon : list nat) (ncalls 
            (sess : list (list op * list cpick)) : string :=
   let c := mkCC (mkC nw (fun i => existsb (Nat.eqb i) rs)) (fun i => nth (i - 1) canon i) in
   join ";" (csessions c ncalls sess []).
+
+(* ---- statements of Model/CacheSpec.v evaluated along a replayed run ---- *)
+From EL Require Import Model.FileSpec Model.CacheSpec.
+
+Fixpoint ccheck (c : ccfg) (picks : list cpick) (s : cstate) (n : nat) : string * cstate :=
+  if negb (dir_ok (cfs s)) then ("step " ++ sn n ++ ": dir", s) else
+  match picks with
+  | [] => ("ok", s)
+  | CCrashW j :: rest => ccheck c rest (kill_worker s (j - 1)) (S n)
+  | CK t :: rest =>
+      match cstep c s t with
+      | Some (s', l) =>
+          if negb (outs_kept (cfs s) (cfs s')) then ("step " ++ sn n ++ ": completed entry altered", s)
+          else match l with
+               | FL (LSetRes i v) =>
+                   if Nat.eqb v 0 || Nat.eqb (ccanon c v) (ccanon c i) then ccheck c rest s' (S n)
+                   else ("step " ++ sn n ++ ": foreign value", s)
+               | _ => ccheck c rest s' (S n)
+               end
+      | None => ("stuck", s)
+      end
+  end.
+
+Fixpoint ccheck_sessions (c : ccfg) (ncalls : nat) (sess : list (list op * list cpick)) (fs : fsys) : string :=
+  match sess with
+  | [] => "ok"
+  | (prog, picks) :: rest =>
+      let '(r, sf) := ccheck c picks (cinit ncalls prog fs) 0 in
+      match r with
+      | "ok" => ccheck_sessions c ncalls rest (cfs sf)
+      | _ => r
+      end
+  end.
+
+Definition ccheck_case (nw : nat) (rs : list nat) (canon : list nat) (ncalls : nat)
+           (sess : list (list op * list cpick)) : string :=
+  let c := mkCC (mkC nw (fun i => existsb (Nat.eqb i) rs)) (fun i => nth (i - 1) canon i) in
+  ccheck_sessions c ncalls sess [].
